@@ -464,7 +464,9 @@ int sim_main(int argc, char **argv) {
 			if (r.discard) { ++disc; st.hit("discard:" + r.detail); }
 			if (!r.sig.empty()) { printf("V %llu %s\n", (unsigned long long) i, r.sig.c_str()); ++viol; }
 			else if (hashes) printf("H %llu %016llx\n", (unsigned long long) i, (unsigned long long) r.hash);
-			if (viol >= 4) { ++k; i += stride; break; }
+			// a violated run may leave process-global library state behind (a half-made table, a dangling global): this worker stops,
+			// so that nothing a later run of the same process does can be taken for a finding of its own
+			if (viol >= 1) { ++k; i += stride; break; }
 		}
 		printf("END %llu\n", (unsigned long long) i);
 		print_stats(st, runs, disc, events, now_s() - t0, arg(argc, argv, "--states"));
